@@ -63,7 +63,8 @@ CLASSES = {
 
 def TARGET_FILES(cls):
     if cls == "threads":
-        return ["tz/tz.py", "tz/_common.py", "tz/_factories.py"]
+        return ["tz/tz.py", "tz/_common.py", "tz/_factories.py",
+                "parser/_parser.py"]
     return ["tz/tz.py", "tz/_common.py"]
 
 
@@ -97,14 +98,29 @@ def generate(cls, rng):
         kinds = [rng.choice(["tzstr", "tzstr", "tzrange", "tzlocal", "gettz"])
                  for _ in range(rng.choice([1, 1, 2]))]
         threads = []
+        builds = rng.random() < 0.5
+        sib = PX.gen_sibling(rng, spec) if rng.random() < 0.7 \
+            else PX.gen_spec(rng)
         for _ in range(rng.choice([2, 2, 3])):
             prog = []
             for _ in range(rng.randrange(2, 7)):
-                prog.append(["query", rng.randrange(len(kinds)),
-                             rng.choice([1999, 2000, 2023, 2024]),
-                             rng.choice(["start", "end"]),
-                             rng.choice([-86400, -1800, -1, 0, 1, 1800, 86400,
-                                         rng.randrange(-10 ** 7, 10 ** 7)])])
+                when = [rng.choice([1999, 2000, 2023, 2024]),
+                        rng.choice(["start", "end"]),
+                        rng.choice([-86400, -1800, -1, 0, 1, 1800, 86400,
+                                    rng.randrange(-10 ** 7, 10 ** 7)])]
+                if builds and rng.random() < 0.6:
+                    # a zone constructed inside the thread (the TZ-string
+                    # parser and the factories are shared by all threads),
+                    # from a valid string or a malformed variant of it
+                    prog.append(["build",
+                                 rng.choice(["instance", "instance", "tzstr",
+                                             "nocache"]),
+                                 rng.randrange(2),
+                                 rng.choice(["valid", "valid", "valid",
+                                             "surplus_rule", "missing_end",
+                                             "short_m", "hash"])] + when)
+                else:
+                    prog.append(["query", rng.randrange(len(kinds))] + when)
             threads.append(prog)
         kind = rng.choice(["random", "random", "pb", "pct"])
         if kind == "random":
@@ -115,9 +131,15 @@ def generate(cls, rng):
         else:
             strat = dict(kind="pct", d=rng.choice([2, 3, 4]),
                          horizon=rng.choice([200, 1000, 4000]))
-        return dict(specs=[spec], fmt=[fmt], kinds=kinds, threads=threads,
+        return dict(specs=[spec, sib], fmt=[fmt, dict(fmt)], kinds=kinds,
+                    threads=threads, builds=builds,
                     sched=dict(strategy=strat, seed=rng.getrandbits(32)))
     specs = [PX.gen_spec(rng) for _ in range(rng.choice([1, 2, 2, 3]))]
+    if rng.random() < 0.5:
+        # one-aspect variants of the first specification: zones built from
+        # them must not share anything that depends on the differing aspect
+        for _ in range(rng.choice([1, 1, 2])):
+            specs.append(PX.gen_sibling(rng, specs[0]))
     if rng.random() < 0.3:
         specs.append(PX.gen_spec(rng, with_dst=False))
     fmt = [dict(always_time=rng.random() < 0.3,
@@ -318,6 +340,68 @@ MALFORMERS = {
 }
 
 
+def thread_build(env, ctx, op, who):
+    """Construct a zone inside a thread and judge it (valid string), or
+    expect ValueError (malformed variant)."""
+    from dsim.kernel import SimBaseException
+    _, how, si, variant, year, which, delta = op
+    si %= len(env.specs)
+    spec = env.specs[si]
+    s = env.strings[si]
+    if variant != "valid":
+        if how == "nocache" or (not spec.get("dst") and variant in (
+                "missing_end", "short_m")):
+            variant = "valid"
+        else:
+            s = MALFORMERS[variant](s)
+    tz = env.tz
+    try:
+        if how == "instance":
+            z = tz.tzstr.instance(s)
+        elif how == "tzstr":
+            z = tz.tzstr(s)
+        else:
+            z = tz.gettz.nocache(s)
+        if variant == "valid":
+            if spec.get("dst"):
+                a, b = PX.transitions_utc(spec, year)
+                ts = (a if which == "start" else b) + delta
+            else:
+                ts = 1700000000 + delta
+            got = observe(z, ts)
+    except (Deadlock, BudgetExceeded):
+        raise
+    except Exception as e:
+        if isinstance(e, SimBaseException):
+            raise
+        with K.mute():
+            ctx.event(who, "build", how, s, type(e).__name__)
+            if variant != "valid" and isinstance(e, ValueError):
+                ctx.probe("thread_malformed_rejected")
+                return
+            ctx.violation("C08.construct_raises" if variant == "valid"
+                          else "C08.malformed_other_exception",
+                          dict(tz=s, zone_kind=how, exc=type(e).__name__,
+                               msg=str(e)[:160], task=who))
+        return
+    with K.mute():
+        ctx.checks += 1
+        ctx.probe("thread_built_zone")
+        if variant != "valid":
+            ctx.violation("C08.malformed_accepted",
+                          dict(text=s, how=variant, got=repr(z), task=who))
+            return
+        off, abbr, isdst = PX.at(spec, ts)
+        sav = (spec["dstoff"] - spec["stdoff"]) if spec.get("dst") else 0
+        want = (off, abbr, sav if isdst else 0)
+        ctx.event(who, "build", how, s, ts, got)
+        if tuple(got) != want:
+            ctx.violation("C08.wrong_answer",
+                          dict(tz=s, zone_kind=how, ts=ts, got=got,
+                               want=list(want), task=who,
+                               built_in_thread=True))
+
+
 def execute_threads(scenario, ctx):
     from dsim.kernel import Scheduler, SimBaseException
     env = Env(ctx, scenario)
@@ -338,6 +422,9 @@ def execute_threads(scenario, ctx):
     for ti, prog in enumerate(scenario["threads"]):
         def body(ti=ti, prog=prog):
             for op in prog:
+                if op[0] == "build":
+                    thread_build(env, ctx, op, "T%d" % ti)
+                    continue
                 _, zi, year, which, delta = op
                 zone, kind = zones[zi % len(zones)]
                 a, b = PX.transitions_utc(spec, year)
